@@ -88,6 +88,8 @@ def _case(draw, tier):
         "coord_dtype": draw(sampled_from(["float64", "float64", "float64", "float32"])),
         # history: 0 = none; k > 0: after the first dual the face centres are moved (towards corner k) through the setters
         "move_centres": draw(sampled_from([0, 0, 0, 1, 2, 5])),
+        # where the grid dimension sits among the variable's dimensions (last is the usual layout)
+        "grid_dim_at": draw(sampled_from(["last", "last", "first", "middle"])),
     }
 
 
@@ -230,6 +232,16 @@ def run_case(case, ctx):
     if closed:
         n = n_face if case["centred"] == "face" else n_node
         uxda, arr = datagen.uxda(g, spec, "n_" + case["centred"], n, name="v")
+        gpos = case.get("grid_dim_at", "last")
+        nlead = len(spec["lead"])
+        if gpos != "last" and nlead >= 1:
+            order = list(range(nlead))
+            order.insert(0 if gpos == "first" or nlead < 2 else 1, nlead)
+            uxda = uxda.transpose(*[uxda.dims[i] for i in order])
+            arr = np.transpose(arr, order)
+            ctx.label("grid-dim-not-last")
+        else:
+            order = None
     dual_from_da = None
     if uxda is not None and case["via_uxda_first"]:
         dual_from_da = uxda.get_dual()
@@ -378,6 +390,8 @@ def run_case(case, ctx):
         ctx.ev("data_swapped_unpermuted")
         want_dim = "n_node" if case["centred"] == "face" else "n_face"
         want_dims = tuple(datagen.lead_dims(spec)) + (want_dim,)
+        if closed and order is not None:
+            want_dims = tuple(want_dims[i] for i in order)
         if not isinstance(res, ux.UxDataArray):
             bad("data_swapped_unpermuted", "type", f"{type(res).__name__}", site + ":data-" + case["centred"])
             return fails
